@@ -26,7 +26,8 @@ Definition ex_R (r : Z) := EReg None r.
      10: L0:  ins_7(I0 * 2 + 1, 2, I1 - I0);
      20: I1 += I0 * 2 + (I1 - 1);   if (--I0 > 0) goto L0;
      30: I2 = I1 > 10 ? 1 : I1 * 5;   unless (I2 == 1 || I1 < 0) goto L1 @ 30;
-     40: ins_8();  L1:  int x = I2 == 1 ? I1 + 1 : 0;  {"H"}: ins_8();  ins_9(x, I1 >= 27 ? I2 + 2 : 0);  (end of x's scope)  ;     *)
+     40: ins_8();  L1:  int x = I2 == 1 ? I1 + 1 : 0;  {"H"}: ins_8();  ins_9(x, I1 >= 27 ? I2 + 2 : 0);  (end of x's scope)  ;
+         int y;  (end of y's scope)  int y2, z = I1 + 1;  ins_9(z, y2);  (end of z's, y2's scope)     *)
 Definition ex_body : list (Z * Z * sstmt) := [
   (0, 255, SAssign (mkvar None (VReg 1010)) None (ELitI 3));
   (10, 255, SLabel (LUser 0));
@@ -41,25 +42,31 @@ Definition ex_body : list (Z * Z * sstmt) := [
   (40, 4, SCall 8 []);
   (40, 255, SCall 9 [EVar None 0%nat; ETern (EBin (ex_R 1011) Ge (ELitI 27)) (EBin (ex_R 1012) Add (ELitI 2)) (ELitI 0)]);
   (40, 255, SScopeEnd 0%nat);
-  (40, 255, SNop)
+  (40, 255, SNop);
+  (40, 255, SDecl TInt [(0%nat, None)]);
+  (40, 255, SScopeEnd 0%nat);
+  (40, 255, SDecl TInt [(0%nat, None); (1%nat, Some (EBin (ex_R 1011) Add (ELitI 1)))]);
+  (40, 255, SCall 9 [EVar None 1%nat; EVar None 0%nat]);
+  (40, 255, SScopeEnd 1%nat);
+  (40, 255, SScopeEnd 0%nat)
 ].
 Definition ex_st0 := mkpst (mkmem (fun _ => VInt 0) (fun _ => VInt 0)) 0 0 [].
 
 Lemma body_example :
   let rty := fun _ : Z => TInt in let lty := fun _ : nat => TInt in let libm := fun (_ : unop) (_ : Z) => 0 in
   exists code s' st',
-    lower_body ex_avail true rty lty 20 ex_body (mklst 1 []) = Ok (code, s') /\ length code = 49%nat /\
-    wf_body rty lty 1 ex_body /\ fresh lty (p_mem ex_st0) 1 /\
+    lower_body ex_avail true rty lty 20 ex_body (mklst 2 []) = Ok (code, s') /\ length code = 57%nat /\
+    wf_body rty lty 2 ex_body /\ fresh lty (p_mem ex_st0) 2 /\
     sprog gen_optable libm rty lty 0 (Some 0%nat) true 10 ex_body Exec ex_st0 = Ok st' /\
-    p_time st' = 40 /\ p_real st' = 60 /\ length (p_log st') = 5%nat /\ regs (p_mem st') 1011 = VInt 27 /\
+    p_time st' = 40 /\ p_real st' = 60 /\ length (p_log st') = 6%nat /\ regs (p_mem st') 1011 = VInt 27 /\
     wprog gen_optable libm lty (Some 0%nat) 10 code Exec ex_st0 None = Ok st'.
 Proof.
   cbv zeta.
-  destruct (lower_body ex_avail true (fun _ => TInt) (fun _ => TInt) 20 ex_body (mklst 1 [])) as [[code s']| | |] eqn:El;
+  destruct (lower_body ex_avail true (fun _ => TInt) (fun _ => TInt) 20 ex_body (mklst 2 [])) as [[code s']| | |] eqn:El;
     try (vm_compute in El; discriminate).
   destruct (sprog gen_optable (fun _ _ => 0) (fun _ => TInt) (fun _ => TInt) 0 (Some 0%nat) true 10 ex_body Exec ex_st0) as [st'| | |] eqn:Es;
     try (vm_compute in Es; discriminate).
-  assert (Hwf : wf_body (fun _ => TInt) (fun _ => TInt) 1 ex_body).
+  assert (Hwf : wf_body (fun _ => TInt) (fun _ => TInt) 2 ex_body).
   { unfold wf_body, ex_body.
     apply Forall_cons. { cbn [snd wf_stmt]. split; [exact I|]. split; [reflexivity|]. left. reflexivity. }
     apply Forall_cons. { exact I. }
@@ -76,8 +83,15 @@ Proof.
     apply Forall_cons. { cbn [snd wf_stmt]. apply Forall_cons; [split; reflexivity|]. apply Forall_cons; [split; reflexivity|]. apply Forall_nil. }
     apply Forall_cons. { cbn [snd wf_stmt]. lia. }
     apply Forall_cons. { exact I. }
+    apply Forall_cons. { cbn [snd wf_stmt]. right. apply Forall_cons; [|apply Forall_nil]. split; [cbn; lia|]. intros e He; discriminate. }
+    apply Forall_cons. { cbn [snd wf_stmt]. lia. }
+    apply Forall_cons. { cbn [snd wf_stmt]. right. apply Forall_cons; [split; [cbn; lia|]; intros e He; discriminate|].
+                         apply Forall_cons; [|apply Forall_nil]. split; [cbn; lia|]. intros e He. cbn in He. inversion He; subst e. split; reflexivity. }
+    apply Forall_cons. { cbn [snd wf_stmt]. apply Forall_cons; [split; reflexivity|]. apply Forall_cons; [split; reflexivity|]. apply Forall_nil. }
+    apply Forall_cons. { cbn [snd wf_stmt]. lia. }
+    apply Forall_cons. { cbn [snd wf_stmt]. lia. }
     apply Forall_nil. }
-  assert (Hfr : fresh (fun _ => TInt) (p_mem ex_st0) 1) by (intros d _; reflexivity).
+  assert (Hfr : fresh (fun _ => TInt) (p_mem ex_st0) 2) by (intros d _; reflexivity).
   exists code, s', st'.
   split; [reflexivity|].
   split; [vm_compute in El; inversion El; reflexivity|].
